@@ -530,6 +530,9 @@ def _analyze_redirects(
             continue
         if target in SAFE_REDIRECT_TARGETS:
             continue
+        # bash expands a leading ~ only when it is not quoted: "~/x" is ./~/x
+        if target.startswith("~") and not raw_target.startswith("~"):
+            target = "./" + target
 
         # Check output redirects against config
         if bare_op in (">", ">>", ">|", "&>", "&>>", ">&", "<>"):
